@@ -598,11 +598,9 @@ def run(ctx):
     ctx.assumptions += [
         'durability is not covered: a completed write/close is assumed to be on disk (the code never calls fsync)',
         'a crash is a prefix of the audited operation sequence, the last write possibly cut to a prefix; every other '
-        'operation (mkdir, create, unlink, symlink) is atomic',
+        'operation (mkdir, create, unlink, symlink, rename) is atomic',
         'single writer: concurrent transactions are excluded by the database-wide lock (property C15)',
         'ModelHash / DatasetHash are collision free (keys and dataset hashes are abstract identifiers in the model)',
-        'pandas.read_csv type inference of an all-numeric / all-boolean / all-NA message column is an engine: the model '
-        'answers "unmodelled" there and only the oracle (verbatim read-back) is evaluated',
         'only top-level contexts (no subcontexts), NONMEM models (model.ctl), UTF-8 encodable text; model descriptions '
         'are valid NONMEM titles (write_model raising inside the transaction is not modelled)',
     ]
